@@ -13,6 +13,7 @@ import re
 import warnings
 
 from harness import gen_expr as G
+from harness import impl as I
 from harness.common import ImplWorker, Model, Report, rng_for, sx_scope, sx_str, unbin, depth
 
 warnings.simplefilter("ignore")
@@ -100,14 +101,14 @@ def impl_eval(a: dict) -> dict:
                 _fd_cache[s] = front_door(s)
             fn, ann = _fd_cache[s]
             iv = read_value(fn, sc)
-            r = repr(ann)
+            r = I.ann_text(ann)
             # parsing is deterministic and scope independent: same postfix before / after evaluations
             if s in _repr_first and _repr_first[s] != r:
                 viol.append({"what": "annotation changed after evaluation", "before": _repr_first[s], "after": r})
             _repr_first.setdefault(s, r)
             if a.get("post") and a["post"] not in r:
                 viol.append({"what": "postfix program differs from the grammar's", "repr": r, "expected_postfix": a["post"]})
-            r2 = repr(dltype.TensorTypeBase[s])
+            r2 = I.ann_text(dltype.TensorTypeBase[s])
             if r2 != r:
                 viol.append({"what": "parsing the same string twice gives different annotations", "a": r, "b": r2})
         else:
